@@ -21,6 +21,12 @@ type propDef struct {
 
 var props = map[string]*propDef{}
 
+var footprintModules = map[string][]string{
+	"C01": {"coinswap"}, "C02": {"coinswap"}, "C03": {"htlc"}, "C04": {"htlc"}, "C05": {"farm"}, "C06": {"farm"},
+	"C07": {"service"}, "C08": {"service"}, "C09": {"token"}, "C10": {"token"}, "C13": {"htlc", "farm", "service", "random"},
+	"C14": {"nft"}, "C15": {"mt"}, "C17": {"oracle"}, "C18": {"random"}, "C19": {"record"},
+}
+
 func register(id string, needPkg, needSSA bool, level string, f propFunc) {
 	props[id] = &propDef{id: id, needPkg: needPkg, needSSA: needSSA, run: f, level: level}
 }
@@ -85,6 +91,11 @@ func main() {
 				}
 			}()
 			d.run(cx, r)
+			// closed world for writers: the entries of the property's modules perform no store
+			// write / delete or bank operation beyond the reviewed footprint (footprint.go)
+			if mods := footprintModules[id]; len(mods) > 0 {
+				cx.footprintRule(r, mods, "footprint")
+			}
 		}()
 		if *tier == "thorough" && os.Getenv("IRISLINT_NO_VARIANTS") == "" {
 			vr := runVariants(*repo, *verif, id)
